@@ -9,7 +9,7 @@ ASSUMPTIONS = [
     "values are opaque tokens; task bodies have no side effects besides the harness record",
     "exhaustive only within the alphabet and bounds listed in coverage.bounds",
 ]
-MENU = ["ins:caught", "wrap:A", "wrap:N", "ins:sync", "leaf:sh", "ins:raise", "item:err", "ins:res", "wrap:try", "wrap:Xp", "wrap:Xr"]
+MENU = ["ins:caught", "wrap:ovl", "wrap:A", "wrap:N", "ins:sync", "leaf:sh", "ins:raise", "item:err", "ins:res", "wrap:try", "wrap:Xp", "wrap:Xr"]
 CATS = ["ctx-alternation", "ctx-after-exit", "ctx-must-active", "ctx-must-paused", "ctx-active-at-flush", "r2-outcome", "hang", "worker-died"]
 LADDER = {"quick": [(4, 1, ["call"]), (3, 2, ["call"])], "thorough": [(5, 1, ["call"]), (4, 2, ["call"]), (2, 3, ["call"])]}
 SPEC = {"r1": False, "r2": True, "need": []}
